@@ -1,6 +1,8 @@
 import Log4rsModel.EnvExpand.LemmasFixed
 /-
-C19: the current code (replace-all on the accumulating output) against the single pass.
+C19, HISTORICAL: the code before the fix of finding F7 (`expand_unfixed`: replace-all on the
+accumulating output) against the single pass; also the decomposition lemmas (`parse`, `Complete`)
+the current theorems use.
 
 State of the loop = the segments of the single-pass decomposition together with the set `D` of
 names already replaced (`render D`): the replace-all for name `n` turns `render D` into
@@ -441,7 +443,7 @@ theorem fold_render (hv : ∀ n v, lookup env n = some v → '$' ∉ v) (segs : 
           exact h3 _ (by simp)
         · exact h2 o' ho' n v hn hl'
 
-/-- the current code equals the single pass on junction-free paths -/
+/-- the historical code equals the single pass on junction-free paths -/
 theorem expandChars_eq_spec (hv : ∀ n v, lookup env n = some v → '$' ∉ v) (path : Text)
     (hj : junctionFree alnum env path = true) :
     expandChars alnum env path = specExpand alnum env path := by
